@@ -4,19 +4,71 @@ package internal
 
 // C20 harness, raw-payload encoder side: which ALGORITHM does WriteRawMessageContents
 // compress with for each enum value?  Found behaviourally.
+//
+//	c20.rawrt  round trip: what the raw encoders write for a payload (possibly empty) must decode,
+//	           with a fresh third-party reader of the algorithm, to that payload.
 
 import (
 	"bytes"
+	"encoding/binary"
 	"fmt"
 	"os"
 	"strings"
 	"testing"
 
 	conformancev1 "connectrpc.com/conformance/internal/gen/proto/go/connectrpc/conformance/v1"
+	"google.golang.org/protobuf/types/known/anypb"
 )
 
 func init() {
 	verifKinds["c20.raw"] = func(args []vsx) vsx { return vInt(verifRawAlg(args[0].i)) }
+	verifKinds["c20.rawrt"] = verifC20RawRT
+}
+
+// e form payload -> (err "e") | (ok F)
+// form 0 binary, 1 text, 2 binary message (WriteRawMessageContents); 3 one stream item (WriteRawStreamContents)
+func verifC20RawRT(args []vsx) vsx {
+	e, form := args[0].i, args[1].i
+	payload := append([]byte{}, args[2].b...) // present, possibly zero-length
+	mc := &conformancev1.MessageContents{Compression: conformancev1.Compression(e)}
+	switch form {
+	case 0, 3:
+		mc.Data = &conformancev1.MessageContents_Binary{Binary: payload}
+	case 1:
+		mc.Data = &conformancev1.MessageContents_Text{Text: string(payload)}
+	case 2:
+		mc.Data = &conformancev1.MessageContents_BinaryMessage{BinaryMessage: &anypb.Any{Value: payload}}
+	default:
+		panic("verif: bad form")
+	}
+	var buf bytes.Buffer
+	var err error
+	if form == 3 {
+		err = WriteRawStreamContents(&conformancev1.StreamContents{
+			Items: []*conformancev1.StreamContents_StreamItem{{Flags: 1, Payload: mc}},
+		}, &buf)
+	} else {
+		err = WriteRawMessageContents(mc, &buf)
+	}
+	if err != nil {
+		return vErr("e")
+	}
+	out := buf.Bytes()
+	if form == 3 {
+		if len(out) < 5 || out[0] != 1 || int64(binary.BigEndian.Uint32(out[1:5])) != int64(len(out)-5) {
+			return vL(vS("ok"), vBool(false))
+		}
+		out = out[5:]
+	}
+	alg := int(e)
+	if e == 0 {
+		alg = 1
+	}
+	if alg < 1 || alg > 6 {
+		return vL(vS("ok"), vBool(false))
+	}
+	cls, y := verifLibFresh(alg, 0, out)
+	return vL(vS("ok"), vBool(cls == 1 && bytes.Equal(y, payload)))
 }
 
 // -1 = error
